@@ -67,6 +67,10 @@ theorem replaceAt_keeps_front {s : Nat} {ws : List Val} {x : Ref} {xs vs : List 
     simp [List.take_take]
   · simp [hs] at hv
 
+/-- `substitute` computes what `nsubstitute` computes (the code shares one loop), on a fresh list -/
+theorem substitute_eq_nsubstitute (new old : Val) (x : Ref) (xs : List Val) :
+    valueOf (.fresh1 (.subst new old) x) xs [] = valueOf (.carmap (.subst new old) x) xs [] := rfl
+
 /-! ## nbutlast -/
 
 theorem nbutlast_eq_butlast (n : Nat) (x : Ref) (xs : List Val) :
